@@ -207,7 +207,7 @@ func c17Wire(c *ctx) {
 				id := fmt.Sprintf("gz-%d", seq.Add(1))
 				c.R.Eval(1)
 				ct := choose(r, []string{"text/html", "text/plain; charset=utf-8", "application/json", "image/png", "application/octet-stream", "application/xml"})
-				ae := choose(r, []string{"", "gzip", "gzip", "gzip, deflate, br", "br", "identity", "deflate"})
+				ae := choose(r, []string{"", "gzip", "gzip", "gzip, deflate, br", "br", "identity", "deflate", "gzip;q=0", "identity, gzip;q=0", "gzip;q=0.5"})
 				pre := ""
 				if r.Intn(6) == 0 && strings.Contains(ae, "gzip") || r.Intn(10) == 0 && ae == "br" {
 					pre = choose(r, []string{"gzip", "br"})
@@ -238,6 +238,10 @@ func c17Wire(c *ctx) {
 				}
 				if r.Intn(8) == 0 {
 					sc.Info = []int{103} // an informational response before the final one
+					if r.Intn(2) == 0 {
+						// early hints written by a handler that had already set its headers carry them too
+						sc.InfoHdrs = []rawhttp.Header{{Name: "Content-Type", Value: ct}}
+					}
 				}
 				rg.up.SetScript(id, sc)
 				var b strings.Builder
@@ -266,7 +270,7 @@ func c17Wire(c *ctx) {
 				if labelled {
 					compressed.Add(1)
 					c.R.Nontrivial(id)
-					if !strings.Contains(ae, "gzip") || !re.MatchString(ct) || accept == "text/event-stream" {
+					if !c17AcceptsGzip(ae) || !re.MatchString(ct) || accept == "text/event-stream" {
 						c.R.Violate("c17w:compressed-although-not-allowed", fmt.Sprintf("response gzip encoded for Accept-Encoding %q, Accept %q, content type %q", ae, accept, ct), vin)
 						continue
 					}
